@@ -415,4 +415,160 @@ theorem C08_unsupported_raises :
       · obtain ⟨err, he⟩ := ihes h
         exact ⟨err, by simp [convertList, hx, he, bind, Except.bind]⟩
 
+/-- A model function (a single `return`, called with the model names `f.args`) and its exported math
+    agree: the value Python computes from the arguments' values is the value the SBML reading gives the
+    exported tree in the model's own environment.  Covers `IdentifierReplacer`, `_handle_body`,
+    `_convert_node`. -/
+theorem C08_fn_sound (I : Interp) (env : VEnv) (f : PyFn) (e : PyExpr) (m : MathML) (v : Val)
+    (hbody : f.body = [.ret (some e)]) (hfree : calleeFree f.params e = true)
+    (hx : sbmlifyFn f = .ok m) (hv : callFn I env f = some v) : evalMath I env m = some v := by
+  unfold sbmlifyFn at hx
+  obtain ⟨σ, hσ, hx⟩ := except_bind_ok hx
+  have hσ' := zipStrict_eq hσ
+  subst hσ'
+  simp only [hbody, List.map, renameStmt, handleBody, handleBodyFrom, convertStmt] at hx
+  obtain ⟨c, hc, hx⟩ := except_bind_ok hx
+  simp only [Except.ok.injEq] at hx
+  subst hx
+  unfold callFn at hv
+  split at hv
+  · simp only [hbody, evalPyBody] at hv
+    exact C08_math_sound I env _ _ _ hc (rename_sound I env f.params f.args e v hfree hv)
+  · simp at hv
+
+/-- Identifiers of the form `[A-Za-z][A-Za-z0-9_]*` are written unchanged (whatever the prefix). -/
+theorem C08_escape_plain (s pre : String) (h : isPlainName s = true) : escapeId s pre = .ok s :=
+  escapeId_plain pre h
+
+/-- … hence escaping is injective on them. -/
+theorem C08_escape_injective_on_plain (s t pre pre' : String) (hs : isPlainName s = true)
+    (ht : isPlainName t = true) (h : escapeId s pre = escapeId t pre') : s = t := by
+  rw [escapeId_plain pre hs, escapeId_plain pre' ht] at h
+  exact Except.ok.inj h
+
+/-- Numeric coefficient: whatever its sign, the species reference the exporter writes (reactant with
+    |q| if negative, product otherwise) has net coefficient `q` under the SBML reading. -/
+theorem C08_stoich_sign_numeric (env : VEnv) (d d' : SDoc) (r r' : SRxn) (x sx : String) (q : Rat)
+    (h : exportCoef (d, r) (x, .num q) = .ok (d', r')) (hsx : escapeId x "CPD" = .ok sx)
+    (hfresh : ∀ s ∈ r.reactants ++ r.products, s.species ≠ sx) :
+    d' = d ∧ netCoef env d' r' sx = some q := by
+  have hr : ∀ s ∈ r.reactants, s.species ≠ sx := fun s hs => hfresh s (List.mem_append_left _ hs)
+  have hp : ∀ s ∈ r.products, s.species ≠ sx := fun s hs => hfresh s (List.mem_append_right _ hs)
+  simp only [exportCoef, hsx, bind, Except.bind, pure, Except.pure, Except.ok.injEq, Prod.mk.injEq] at h
+  obtain ⟨rfl, rfl⟩ := h
+  refine ⟨rfl, ?_⟩
+  show netCoef env d (addRef (if q < 0 then negSide else nonnegSide) r ⟨sx, some (absRat q), none⟩) sx = some q
+  by_cases hq : q < 0
+  · rw [if_pos hq, show negSide = Side.reactant from rfl]
+    simp only [addRef, netCoef]
+    rw [sideSum_fresh env d hp, sideSum_fresh_add env d ⟨sx, some (absRat q), none⟩ hr rfl]
+    simp only [refCoef, absRat, hq, if_true, bind, Option.bind, Option.map]
+    congr 1
+    grind
+  · rw [if_neg hq, show nonnegSide = Side.product from rfl]
+    simp only [addRef, netCoef]
+    rw [sideSum_fresh env d hr, sideSum_fresh_add env d ⟨sx, some (absRat q), none⟩ hp rfl]
+    simp only [refCoef, absRat, hq, if_false, bind, Option.bind, Option.map]
+    congr 1
+    grind
+
+/-- Computed coefficient: the exporter writes an assignment rule holding the exported function and a
+    species reference whose net coefficient is *plus* the value of that rule — the sign of the computed
+    value is kept (finding F-C08-1, repaired). -/
+theorem C08_stoich_sign_computed (env : VEnv) (d d' : SDoc) (r r' : SRxn) (x sx rid : String) (f : PyFn)
+    (h : exportCoef (d, r) (x, .computed f) = .ok (d', r')) (hsx : escapeId x "CPD" = .ok sx)
+    (hrid : escapeId (x ++ "ref") "CPD" = .ok rid) (hrid' : escapeId (x ++ "ref") "AR" = .ok rid)
+    (hfresh : ∀ s ∈ r.reactants ++ r.products, s.species ≠ sx) :
+    (∃ m, sbmlifyFn f = .ok m ∧ lookupLast d'.rules rid = some m) ∧
+      netCoef env d' r' sx = (env rid).map Val.toNum := by
+  have hr : ∀ s ∈ r.reactants, s.species ≠ sx := fun s hs => hfresh s (List.mem_append_left _ hs)
+  have hp : ∀ s ∈ r.products, s.species ≠ sx := fun s hs => hfresh s (List.mem_append_right _ hs)
+  simp only [exportCoef, exportRule, hrid', hsx, hrid, bind, Except.bind, pure, Except.pure] at h
+  cases hm : sbmlifyFn f with
+  | error err => simp [hm] at h
+  | ok m =>
+    simp only [hm, Except.ok.injEq, Prod.mk.injEq] at h
+    obtain ⟨rfl, rfl⟩ := h
+    have hl : lookupLast (d.rules ++ [(rid, m)]) rid = some m := lookupLast_append_self _ _ _
+    refine ⟨⟨m, rfl, hl⟩, ?_⟩
+    show netCoef env _ (addRef computedSide r ⟨sx, none, some rid⟩) sx = _
+    rw [show computedSide = Side.product from rfl]
+    simp only [addRef, netCoef]
+    rw [sideSum_fresh env _ hr, sideSum_fresh_add env _ ⟨sx, none, some rid⟩ hp rfl]
+    simp only [refCoef, hl]
+    cases env rid with
+    | none => rfl
+    | some w =>
+      simp only [bind, Option.bind, Option.map]
+      congr 1
+      grind
+
+/-! ### names (finding F-C08-5: known) -/
+
+/-- Full statement: every component name comes back under its name (write the id, read it through the
+    importer's identifier mapping).  False of the code: -/
+theorem C08_names_roundtrip_fails :
+    ¬ ∀ s pre : String, (escapeId s pre).map nameToPy = .ok s := by
+  intro h
+  have := congrArg Except.toOption (h "x.c" "CPD")
+  revert this
+  decide
+
+/-- escaping alone is not injective either: a legal Python-side name collides with an escaped one -/
+theorem C08_escape_not_injective :
+    (escapeId "a.b" "CPD").toOption = (escapeId "a__46__b" "CPD").toOption ∧ "a.b" ≠ "a__46__b" := by
+  decide
+
+/-- `_partial`: names `[A-Za-z][A-Za-z0-9_]*` without a double underscore that are not Python keywords
+    do come back unchanged. -/
+theorem C08_names_roundtrip_partial (s pre : String) (h : isRoundTripName s = true) :
+    (escapeId s pre).map nameToPy = .ok s := by
+  have hp : isPlainName s = true := by
+    simp only [isRoundTripName, Bool.and_eq_true] at h
+    exact h.1.1
+  rw [escapeId_plain pre hp]
+  simp [Except.map, nameToPy_plain s h]
+
+example : isRoundTripName "ATP_c" = true := by decide
+example : isRoundTripName "x.c" = false := by decide
+example : isRoundTripName "lambda" = false := by decide
+
+/-! ### species-reference ids (finding F-C08-7: known) -/
+
+/-- two reactions, each with a computed coefficient on `y` -/
+def clashModel : PyModel :=
+  let coef (c : Rat) : PyFn := ⟨["p"], [.ret (some (.binop .mult (.name "p") (.const (.num c))))], ["k"]⟩
+  let rate (v : String) : PyFn := ⟨["a", "b"], [.ret (some (.binop .mult (.name "a") (.name "b")))], ["k", v]⟩
+  { params := [("k", .val 3)], vars := [("x", .val 2), ("y", .val 3)], derived := [],
+    rxns := [⟨"r1", rate "x", [("x", .num (-1)), ("y", .computed (coef 2))]⟩,
+             ⟨"r2", rate "y", [("y", .computed (coef 3))]⟩] }
+
+/-- Full statement at model level — the derivative of every variable survives the round trip — is
+    false of the code: both reactions write the rule `yref`, the importer keeps the later one. -/
+theorem C08_roundtrip_rhs_fails :
+    ¬ ∀ (m : PyModel) (d : SDoc) (st : List (String × Rat)) (x : String),
+        exportModel m = .ok d → docRhs (fun _ _ => none) d st x = pyRhs (fun _ _ => none) m st x := by
+  intro h
+  have hd : ∃ d, exportModel clashModel = .ok d ∧
+      docRhs (fun _ _ => none) d [("x", 2), ("y", 3)] "y" ≠
+        pyRhs (fun _ _ => none) clashModel [("x", 2), ("y", 3)] "y" := by
+    refine ⟨_, rfl, ?_⟩
+    decide +kernel
+  obtain ⟨d, hd1, hd2⟩ := hd
+  exact hd2 (h clashModel d _ _ hd1)
+
+/-! ### facts about the tables and structural choices read from `_export.py` -/
+
+theorem C08_tables :
+    ifexpOrder = [.body, .test, .orelse] ∧ computedSide = .product ∧ negSide = .reactant ∧
+    nonnegSide = .product ∧ unknownCallRaises = true ∧ arityChecked = true ∧ logWithBase = true ∧
+    iaSetterExists = true ∧ libParents = pyLibs := by
+  decide
+
+/-- no function name is in two of the UNARY / BINARY / NARY tables (the order of the lookups is immaterial) -/
+theorem C08_tables_disjoint :
+    (unaryTable.map (·.1)).all (fun k => !(binaryTable.map (·.1)).contains k && !(naryTable.map (·.1)).contains k) = true ∧
+    (binaryTable.map (·.1)).all (fun k => !(naryTable.map (·.1)).contains k) = true := by
+  decide
+
 end Mxl.C08
